@@ -198,9 +198,16 @@ def check(case: Dict[str, Any]) -> Outcome:
                 inbound = _inbound(case)
                 if inbound:
                     client.set_protocol_version("2025-06-18")  # batches from the server are answered with -32600 on stdin
+                stall = case.get("stall")
                 for k_, (obj, _) in enumerate(built):
                     if inbound.get(k_) == -1:
                         procs[0].stdout.feed(BATCH_LINE)
+                    if stall and stall[0] == k_:
+                        # the child stops reading its stdin for a while (busy, suspended by its supervisor): writes wait
+                        g = asyncio.Event()
+                        procs[0].stdin.stall_mode = stall[2]
+                        procs[0].stdin.gate = g
+                        asyncio.get_running_loop().call_later(stall[1], g.set)
                     if case.get("burst"):
                         # the application queues everything at once; the writer task finds a backlog when it wakes
                         w.send_nowait(obj)
@@ -211,7 +218,7 @@ def check(case: Dict[str, Any]) -> Outcome:
                         for _y in range(inbound[k_]):
                             await asyncio.sleep(0)
                         procs[0].stdout.feed(BATCH_LINE)
-                await asyncio.sleep(0.05)
+                await asyncio.sleep(0.05 + (stall[1] if stall else 0))
                 state["closed_before"] = procs[0].stdin.closed
                 await w.aclose()
                 await asyncio.sleep(0.05)
@@ -234,7 +241,9 @@ def check(case: Dict[str, Any]) -> Outcome:
     out.nontrivial = bad_then_good or raw_break or nested_null or bool(case.get("inbound"))
     if case.get("burst"):
         out.nontrivial = True
-    out.classes = (("burst",) if case.get("burst") else ()) + tuple(c for c, v in (("bad-then-good", bad_then_good), ("raw-line-break-char", raw_break), ("nested-null", nested_null), ("inbound-batches", bool(case.get("inbound"))),
+    if case.get("stall") and case["stall"][0] < len(built):
+        out.nontrivial = True
+    out.classes = (("burst",) if case.get("burst") else ()) + ((f"child-not-reading:{case['stall'][2]}:{'>=5s' if case['stall'][1] >= 5 else '<5s'}",) if case.get("stall") else ()) + tuple(c for c, v in (("bad-then-good", bad_then_good), ("raw-line-break-char", raw_break), ("nested-null", nested_null), ("inbound-batches", bool(case.get("inbound"))),
                                         ("huge-line", any(w is not None and len(json.dumps(w)) > 65536 for _, w in built))) if v) + (f"items:{min(len(items), 12)}",) + (("real-child",) if case.get("real") else ())
 
     data: bytes = state.get("data", b"")
@@ -364,6 +373,8 @@ def cases(draw):
             elif r == 2 and it[0] == "dict":
                 tgt["deep"] = {"$deep": draw(st.sampled_from([100, 260, 300]))}
     case: Dict[str, Any] = {"items": its}
+    if draw(st.integers(0, 4)) == 0:
+        case["stall"] = [draw(st.integers(0, len(its) - 1)), draw(st.sampled_from([0.01, 0.5, 3.0, 6.0, 12.0, 31.0, 61.0, 200.0])), draw(st.sampled_from(["full", "queued"]))]
     if draw(st.integers(0, 3)) == 0:
         case["burst"] = True
         return case
@@ -417,7 +428,20 @@ def job_big_inbound(col: Collector, seed: int, tier: str) -> None:
                 items.append(["dict", w_] if form == "dict" else (["typed", "request", w_] if form == "typed" else ["str", w_, False, True]))
             case = {"items": items, "burst": True}
             col.record(case, check(case))
+    # a child that stops reading for a while: every outbound form x small / huge frame x stall length x what the pipe did with the frame
+    for secs in (0.5, 4.9, 5.0, 5.1, 9.9, 10.1, 30.0, 60.1, 120.0, 600.0):
+        for mode in ("full", "queued"):
+            for size in (10, 140000):
+                w_ = {"jsonrpc": "2.0", "id": 1, "method": "m", "params": {"blob": {"$big": size}}}
+                for form in (["typed", "request", w_], ["dict", w_], ["str", w_, False, True]):
+                    for k in (0, 1):
+                        for burst in (False, True):
+                            case = {"items": [small, form, small], "stall": [k, secs, mode]}
+                            if burst:
+                                case["burst"] = True
+                            col.record(case, check(case))
     col.exhaustive_parts.append("lines of 66,000 / 140,000 characters in 4 outbound forms x a server batch arriving at 8 scheduler offsets into the write")
+    col.exhaustive_parts.append("child not reading its stdin for 10 durations (0.5 s .. 600 s) x frame taken by the pipe or not x 3 outbound forms x small/140,000-character frame x stalled item x burst")
 
 
 JOBS = {"hyp": job_hyp, "positions": job_positions, "real": job_real, "big_inbound": job_big_inbound}
